@@ -249,6 +249,8 @@ const HAND_FENS: &[&str] = &[
     "8/8/8/8/8/5K2/4Q3/7k w - - 0 1",
     "4k3/8/4K3/8/8/8/8/Q7 w - - 0 1",
     "8/r7/8/1q6/8/8/6k1/2K5 b - - 0 1",
+    "4rkr1/4p1p1/8/8/8/8/8/4K2R w K - 0 1",
+    "1rkr4/1p1p4/8/8/8/8/8/R3K3 w Q - 0 1",
 ];
 
 /// Few-piece positions with a pawn one step from promotion (under-promotion tactics) and
